@@ -399,9 +399,11 @@ func c25OpsString(ops []c25Op) string {
 
 // c25Path builds a path for variant v announced by source src.
 func c25Path(src *bnet.IP, v int, ebgp bool) *route.Path {
-	if v == 7 {
-		// static path; the next hop is the (per worker unique) source, so two workers never install Compare-equal paths
-		return &route.Path{Type: route.StaticPathType, StaticPath: &route.StaticPath{NextHop: src}}
+	// BGP paths only: a static path in a LocRIB makes route.(*Path).ECMP panic when a BGP path shares the
+	// prefix, and AdjRIBOut.RefreshRoute panics on it (nil BGPPath) for eBGP sessions — crashes that belong to
+	// other properties (C02/C12) and would only hide what C25 is looking for.
+	if v >= 7 {
+		v = 6
 	}
 	asp := types.NewASPath([]uint32{65100 + uint32(v), 65200})
 	p := &route.Path{
@@ -475,14 +477,7 @@ func (r *c25Rig) exec(g int, op c25Op) string {
 		if loc.disposed.Load() {
 			return ""
 		}
-		// prefix #5 only ever carries static paths and the others only BGP paths: a route mixing path
-		// types panics in route.(*Path).ECMP (nil BGPPath of the static path) — not a C25 matter
 		v := op.v
-		if pi == 5 {
-			v = 7
-		} else if v == 7 {
-			v = 6
-		}
 		np := c25Path(w.src, v, g%2 == 1)
 		r.enter(r.objLoc(l))
 		defer r.leave(r.objLoc(l))
@@ -659,12 +654,6 @@ func (r *c25Rig) exec(g int, op c25Op) string {
 			return ""
 		}
 		v := op.v
-		if v == 7 {
-			v = 6 // an AdjRIBIn only holds BGP paths
-		}
-		if pi == 5 {
-			pi, pfx = 4, c25Pfxs[4]
-		}
 		np := c25Path(in.peer, v, g%2 == 1)
 		r.enter(r.objIn(l, g))
 		defer r.leave(r.objIn(l, g))
@@ -672,9 +661,6 @@ func (r *c25Rig) exec(g int, op c25Op) string {
 		in.cur[pi] = np
 		return "in_feed"
 	case c25InWithdraw:
-		if pi == 5 {
-			pi, pfx = 4, c25Pfxs[4]
-		}
 		old := in.cur[pi]
 		if loc.disposed.Load() || old == nil {
 			return ""
